@@ -41,3 +41,43 @@ def fragment_texts(fragments, use=None):
         root = {'Obj': 'o', 'Iface': 'n', 'Uni': 'u'}[fr['on']]
         q = 'query Q { %s { ...%s } }' % (root, fr['name'])
     return FRAG_SCHEMA, q + '\n' + '\n'.join(out) + '\n'
+
+
+def abstract_texts(model):
+    """schema / query / payloads for a model of kernels.k_abstract_selection"""
+    impl, memb = model['implements'], model['members']
+    parent = 'I0' if model['parent'] == 'interface' else 'U0'
+    lines = ['schema { query: Query }', f'type Query {{ n: {parent} }}', 'interface I0 { leaf: Int }']
+    for o in range(2):
+        lines.append(f'type O{o}{" implements I0" if impl[o] else ""} {{ leaf: Int f1: Int f2: Int }}')
+    members = [f'O{o}' for o in range(2) if memb[o]] or ['O0']
+    lines.append('union U0 = ' + ' | '.join(members))
+    schema = '\n'.join(lines) + '\n'
+    on = {'O0': 'O0', 'O1': 'O1', 'PARENT': parent}
+    frag_field = lambda k, t: ('__typename' if t == 'U0' else ('leaf' if t == 'I0' else f'f{k}'))
+    frags = [f"fragment F{k} on {on[model[f'F{k}_on']]} {{ {frag_field(k, on[model[f'F{k}_on']])} }}" for k in (1, 2)]
+    query = 'query Q { n { ' + ' '.join(model['selections']) + ' } }\n' + '\n'.join(frags) + '\n'
+    # one payload per possible object type carrying every field the operation can select on it
+    possible = [o for o in range(2) if (impl[o] if parent == 'I0' else memb[o])]
+    payloads = [{'n': {'__typename': f'O{o}', 'leaf': 1, 'f1': 2, 'f2': 3}} for o in possible]
+    return schema, query, payloads, possible
+
+
+def expected_keys(model, obj):
+    """keys of the payload object that the operation selects when the runtime type is O<obj>"""
+    parent_is_iface = model['parent'] == 'interface'
+    keys = {'__typename'}
+    for s in model['selections']:
+        if s == 'leaf':
+            keys.add('leaf')
+        elif s.startswith('... on O'):
+            if int(s[8]) == obj:
+                keys.add('leaf')
+        elif s.startswith('...F'):
+            k = int(s[4])
+            t = model[f'F{k}_on']
+            if t == f'O{obj}':
+                keys.add(f'f{k}')
+            elif t == 'PARENT' and parent_is_iface:
+                keys.add('leaf')
+    return keys
